@@ -679,6 +679,10 @@ impl MqttState {
     /// Packet ids are incremented till maximum set inflight messages and reset to 1 after that.
     ///
     fn next_pkid(&mut self) -> u16 {
+        // a CONNACK may have lowered the window below the current position: start over
+        if self.last_pkid >= self.max_outgoing_inflight {
+            self.last_pkid = 0;
+        }
         let next_pkid = self.last_pkid + 1;
 
         // When next packet id is at the edge of inflight queue,
